@@ -161,6 +161,14 @@ Section Model.
 
   Definition mp_world0 (size : N) : mp_world :=
     {| w_pool := mp_new size; w_held := []; w_live := [] |}.
+
+  (* process exit: the pool's handler runs iff it was registered with atexit() (M->state != 0);
+     (world afterwards, events) *)
+  Definition mp_exit (w : mp_world) : mp_world * list aev :=
+    if mp_state (w_pool w) =? 0 then (w, [])
+    else
+      let '(m1, ev, freed) := mp_atexit (w_pool w) in
+      ({| w_pool := m1; w_held := w_held w; w_live := remove_ids (w_live w) freed |}, ev).
 End Model.
 
 (* ---------------- spec ---------------- *)
